@@ -15,5 +15,10 @@ CHECK = dict(
             dict(name="agerapid", run="^TestVerifC04AgeRapid$", quick=20000, thorough=400000, shards_thorough=4),
             dict(name="history", run="^TestVerifC04History$", quick=3000, thorough=120000, shards_thorough=8),
         ]),
+        dict(name="ecscache", dir="internal/ecscache", src="C04/ecscache", runs=[
+            dict(name="agegrid", run="^TestVerifC04EcsAgeGrid$", quick=0, thorough=0),
+            dict(name="agerapid", run="^TestVerifC04EcsAgeRapid$", quick=20000, thorough=400000, shards_thorough=4),
+            dict(name="history", run="^TestVerifC04EcsHistory$", quick=3000, thorough=120000, shards_thorough=8),
+        ]),
     ],
 )
